@@ -308,14 +308,15 @@ def parse_assoc(mo):
 
 
 # ------------------------------------------------------------------ (b) the simulators, both return modes
-SIMS = {'Gillespie_SIR': True, 'fast_SIR': True, 'Gillespie_SIS': False, 'fast_SIS': False}
+SIMS = {'Gillespie_SIR': True, 'fast_SIR': True, 'Gillespie_SIS': False, 'fast_SIS': False,
+        'discrete_SIR': True, 'basic_discrete_SIS': False}      # the last two only under deterministic rules
 
 
 def gen_sim(rng, k):
     n = rng.randint(2, 9)
     perm = list(range(n)); rng.shuffle(perm)
     edges = [(u, v) for u in range(n) for v in range(u + 1, n) if rng.random() < rng.choice([0.3, 0.5, 0.8])]
-    name = list(SIMS)[k % 4]
+    name = list(SIMS)[k % 6]
     case = dict(kind='sim', sim=name, scheme=rng.choice(SCHEMES), perm=perm, edges=edges, seed=rng.randrange(10 ** 6),
                 tau=rng.choice([0.5, 1.0, 2.0, 3.0]), gamma=rng.choice([0.5, 1.0, 1.0, 2.0]), tmin=rng.choice([0, 0, 1, -2]), horizon=rng.choice([1, 3, 5]))
     r = rng.random()
@@ -326,6 +327,17 @@ def gen_sim(rng, k):
             if rest: case['rec0'] = sorted(rng.sample(rest, rng.randint(1, max(1, len(rest) // 2))))
     elif r < 0.8:
         case['rho'] = rng.choice([0.2, 0.5])
+    if name in ('discrete_SIR', 'basic_discrete_SIS'):
+        # deterministic rules only (with full data these simulators draw extra random numbers): a transmission
+        # table / p in {0,1}; integer times; explicit initial sets (the default initial node is a random draw too)
+        case.pop('rho', None)
+        if 'init' not in case: case['init'] = [rng.randrange(n)]
+        case['tmin'] = rng.choice([0, 0, 2, -1]); case['horizon'] = rng.choice([1, 2, 4, 6])
+        if name == 'discrete_SIR':
+            case['fire'] = [(u, v) for a, b in edges for u, v in ((a, b), (b, a)) if rng.random() < rng.choice([0.4, 0.7, 1.0])]
+            if rng.random() < 0.3: case['recover_set'] = sorted(rng.sample(range(n), rng.randint(0, n)))
+        else:
+            case['p'] = rng.choice([0, 1, 1])
     return case
 
 
@@ -340,10 +352,20 @@ def run_sim(EoN, nx, case):
     if 'rec0' in case: kw['initial_recovereds'] = [labels[i] for i in case['rec0']]
     if 'rho' in case: kw['rho'] = case['rho']
     res = []
+    idx = {l: i for i, l in enumerate(labels)}
+    fire = {tuple(x) for x in case.get('fire', [])}
     for full in (False, True):
         pyrandom.seed(case['seed']); np.random.seed(case['seed'])
         try:
-            res.append(('OK', f(G, case['tau'], case['gamma'], return_full_data=full, **kw)))
+            if case['sim'] == 'discrete_SIR':
+                extra = {}
+                if 'recover_set' in case:
+                    rs = set(case['recover_set']); extra['test_recovery'] = lambda u: idx[u] in rs
+                res.append(('OK', f(G, test_transmission=lambda u, v: (idx[u], idx[v]) in fire, args=(), return_full_data=full, **extra, **kw)))
+            elif case['sim'] == 'basic_discrete_SIS':
+                res.append(('OK', f(G, case['p'], return_full_data=full, **kw)))
+            else:
+                res.append(('OK', f(G, case['tau'], case['gamma'], return_full_data=full, **kw)))
         except Exception as e:
             res.append(('ERR', type(e).__name__))
     return labels, G, res
